@@ -88,6 +88,7 @@ int main(int argc, char **argv) {
   bool fk = flags.find('k') != std::string::npos;   // tokens only (--tokens)
   bool fo = flags.find('o') != std::string::npos;   // also the lowered and optimised directive lists
   bool ff = flags.find('f') != std::string::npos;   // also frame events
+  bool fy = flags.find('y') != std::string::npos;   // syntax only: token list (from the lexer itself), --tree and --tree-opt text
   if (chdir(scratch.c_str()) != 0) return 2;
   signal(SIGVTALRM, on_alarm);
   std::string line, binpath = "x_case.bin";
@@ -103,6 +104,34 @@ int main(int argc, char **argv) {
       std::ostringstream ts; std::string st = "ok";
       try { xcmp::Driver dr(ts); dr.run(xcmp::DriverAction::EMIT_TOKENS, src, false); } catch (const std::exception &) { st = "error"; }
       fprintf(g_out, "{\"id\":\"%s\",\"idx\":%ld,\"status\":\"%s\",\"tokens\":\"%s\"}\n", jesc(g_id).c_str(), g_index, st.c_str(), jesc(ts.str()).c_str());
+      continue;
+    }
+    if (fy) {
+      // tokens as the lexer delivers them (one-token lookahead: the list ends with END_OF_FILE or, at the first
+      // lexical error, with the pseudo-token ERROR), then the two tree actions with their outcome
+      std::string toks = "[";
+      try {
+        xcmp::Lexer lx; lx.loadBuffer(src);
+        for (long n = 0; n < 200000; n++) {
+          auto t = lx.getNextToken();
+          std::string text; int val = 0;
+          if (t == xcmp::Token::IDENTIFIER) text = lx.getIdentifier();
+          else if (t == xcmp::Token::NUMBER) { val = lx.getNumber(); text = std::to_string(val); }
+          else if (t == xcmp::Token::STRING) text = lx.getString();
+          toks += std::string(n ? "," : "") + "[\"" + jesc(xcmp::tokenEnumStr(t)) + "\",\"" + jesc(text) + "\"," + std::to_string(val) + "]";
+          if (t == xcmp::Token::END_OF_FILE) break;
+        }
+      } catch (const std::exception &) { toks += std::string(toks.size() > 1 ? "," : "") + "[\"ERROR\",\"\",0]"; }
+      toks += "]";
+      std::string out[2], st[2], dg[2];
+      xcmp::DriverAction acts[2] = {xcmp::DriverAction::EMIT_TREE, xcmp::DriverAction::EMIT_OPTIMISED_TREE};
+      for (int k = 0; k < 2; k++) {
+        std::ostringstream ts; st[k] = "ok";
+        try { xcmp::Driver dr(ts); dr.run(acts[k], src, false); } catch (const std::exception &e) { st[k] = "error"; dg[k] = e.what(); }
+        out[k] = ts.str();
+      }
+      fprintf(g_out, "{\"id\":\"%s\",\"idx\":%ld,\"status\":\"%s\",\"diag\":\"%s\",\"toks\":%s,\"tree\":\"%s\",\"optstatus\":\"%s\",\"treeopt\":\"%s\"}\n", jesc(g_id).c_str(), g_index,
+              st[0].c_str(), jesc(dg[0]).c_str(), toks.c_str(), jesc(out[0]).c_str(), st[1].c_str(), jesc(out[1]).c_str());
       continue;
     }
     struct itimerval tv = {{0, 0}, {cpu_s, 0}};
